@@ -19,6 +19,7 @@ TECHNIQUE = ("deterministic simulation with a staged transport (send buffer "
              "inside producers' turns, subchannel pause/resume/stop requests, "
              "closes and connection replacement; reference model of who must "
              "be paused, checked after every event")
+RULE_BURST = (" In a fifth of the mixed runs an application dumps 1000..1300 small writes on a subchannel in one go (a long un-acked queue while the transport is full).")
 RULE = ("One evaluation = one seeded execution of two real Managers with 1-3 "
         "subchannels per side carrying push producers (0, 1 or many writes "
         "per resumeProducing, some unregistering or closing inside their "
@@ -28,6 +29,7 @@ RULE = ("One evaluation = one seeded execution of two real Managers with 1-3 "
         "transport paused the Outbound at least once while a producer was "
         "registered, or an application pause request was made. Distinct: "
         "event-log digests among non-trivial runs.")
+RULE += RULE_BURST
 LEVEL_TEXT = ("Seeded exploration. Model: writable := a connection exists, is "
               "alive and its transport's last signal to Outbound is not "
               "pause. After every event: every registered push producer is "
@@ -257,10 +259,25 @@ def run_one(seed, tape, opts):
     saw_pause = [0]
     app_pause_reqs = [0]
 
+    # scale: once in a while an application dumps 1000..1300 small writes on
+    # a subchannel in one go (acks lag behind: the un-acked queue grows long)
+    burst_left = [1 if mode == "mixed" and tape.choose(5, "burst?") == 0
+                  else 0]
+
     def op():
         done_ops[0] += 1
         side = tape.pick(w.sides, "opside")
         mine = subs[side.name]
+        if burst_left[0] and done_ops[0] >= 3 and mine and \
+                tape.choose(4, "burst_now") == 0:
+            p = tape.pick(mine, "burst_p")
+            if not p.lost and not p.closed_local:
+                burst_left[0] = 0
+                sim.note("probe.burst_of_unacked_records")
+                sim.ev("op", side.name, "burst")
+                for _ in range(1000 + tape.choose(300, "burst_n")):
+                    p.transport.write(b"b")
+                return
         k = tape.choose(12, "opk") if mode == "mixed" else \
             (tape.pick((0, 1, 0, 1, 3, 20, 7), "opk") if mode == "rotation"
              else 4 + tape.choose(8, "opk"))
